@@ -5,9 +5,10 @@
    reinterpreted as another type (C05_values_are_never_reinterpreted); every value an expression yields is of the kind its result
    type says (C05_results_have_their_type).  The conversion step shared by all channels admits exactly the three documented
    conversions (C05_implicit_cast_table and the value lemmas).
+   The same holds for the NAME of a user type (C05_values_keep_their_user_type): record and array copies rely on the layout
+   comparison made just before them, and the proof uses what a successful comparison says about the pairs of fields and elements.
    PARTIAL: "a rejected store leaves the target's previous value intact" is proved for the assignment channel's store sequence
-   (C05_failed_store_no_effect); for argument binding, RETURN and INPUT it is compared by the correspondence.  The kind theorem
-   speaks of the kind (INTEGER, REAL, ..., enumerated, pointer, record), not of the NAME of a user type. *)
+   (C05_failed_store_no_effect); for argument binding, RETURN and INPUT it is compared by the correspondence. *)
 From PE2 Require Import Eval Run Lemmas_Store Lemmas_Out Lemmas_DeepCopy Lemmas_ConstLogic Lemmas_ConstThm.
 Local Open Scope Z_scope.
 
@@ -76,10 +77,17 @@ Theorem C05_values_are_never_reinterpreted : forall ped repl lim fuel bl c s id 
 Proof. exact cells_hold_values_of_their_type. Qed.
 Print Assumptions C05_values_are_never_reinterpreted.
 
-(* a value that an expression or statement yields is of the kind its result type says, and the state left behind satisfies
-   the invariant again *)
+(* ... and of the user type of that NAME: an enumerated, pointer or record value held by a variable carries the name of the
+   variable's declared type (`named_ok p ty`: if p carries a type name, it is ty's) *)
+Theorem C05_values_keep_their_user_type : forall ped repl lim fuel bl c s id cl, Inv s ->
+  nm_get id (s_cells (snd (run_block ped repl lim fuel bl c s))) = Some cl -> named_ok (c_val cl) (c_type cl).
+Proof. exact cells_hold_values_of_their_named_type. Qed.
+Print Assumptions C05_values_keep_their_user_type.
+
+(* a value that an expression or statement yields is of the kind and of the user type its result type says, and the state left
+   behind satisfies the invariant again *)
 Theorem C05_results_have_their_type : forall ped repl lim fuel n c s r s' p, Inv s ->
-  ev_eval (evs_at ped repl lim fuel) n c s = (Ok r, s') -> r_val r = Some p -> payload_kind p = dk (r_type r) /\ Inv s'.
+  ev_eval (evs_at ped repl lim fuel) n c s = (Ok r, s') -> r_val r = Some p -> payload_kind p = dk (r_type r) /\ named_ok p (r_type r) /\ Inv s'.
 Proof. exact results_are_of_their_type. Qed.
 Print Assumptions C05_results_have_their_type.
 
